@@ -92,7 +92,11 @@ def delay_plans(case, dry, mod, tier, rng):
         if tier == "quick" and len(iplans) > getattr(mod, "INSTR_SAMPLE", 60):
             iplans = rng.sample(iplans, getattr(mod, "INSTR_SAMPLE", 60))
         plans.extend(iplans)
-    single = list(plans)
+    # source-free failpoints: an OSError (EMFILE) raised at each statement of the listed functions, first occurrence,
+    # in the forked children (C18: a failing reopen must not leave the child on the inherited descriptor)
+    for role, qn, rel in pe.worker_sites(tuple(getattr(mod, "FAULT_QUALNAMES", ()))):
+        plans.append([["worker*", qn, rel, 1, "raise_os", 24]])
+    single = [p for p in plans if p[0][4] == "sleep"]
     # random-k: pairs / triples of delay points from different roles, 20-150 ms
     nk = getattr(mod, "RANDOM_K", {"quick": 8, "thorough": 150})[tier]
     for _ in range(nk):
